@@ -113,6 +113,21 @@ func c03Requests(entry string, otherUserEntry string) []c03Req {
 	add("resources-0", z, port, 0, 0, len(z), false)
 	add("resources-2", append(append([]byte{}, z...), append([]byte{byte(len(z)), 0}, z...)...), port, 2, 0, len(z), false)
 	add("alternates-1", z, port, 1, 1, len(z), false)
+	// several names in one request: whatever the gateway does with the further ones, it never connects anywhere the
+	// policy does not allow (the first name here is not allowed, a later one is)
+	el := tsgu.UTF16Z("elsewhere.example")
+	withLen := func(b []byte) []byte { return append([]byte{byte(len(b)), byte(len(b) >> 8)}, b...) }
+	add("alternate-allowed-after-unlisted", append(append([]byte{}, el...), withLen(z)...), port, 1, 1, len(el), false)
+	add("second-resource-allowed-after-unlisted", append(append([]byte{}, el...), withLen(z)...), port, 2, 0, len(el), false)
+	add("two-alternates-allowed-after-unlisted", append(append(append([]byte{}, el...), withLen(z)...), withLen(z)...), port, 1, 2, len(el), false)
+	// a byte order mark is a character like any other (U+FEFF): a name that starts with one is another name
+	bomLE := append([]byte{0xFF, 0xFE}, z...)
+	add("byte-order-mark-le-prefix", bomLE, port, 1, 0, len(bomLE), true)
+	be := []byte{0xFE, 0xFF}
+	for i := 0; i+1 < len(z); i += 2 {
+		be = append(be, z[i+1], z[i])
+	}
+	add("byte-order-mark-be-then-big-endian-name", be, port, 1, 0, len(be), true)
 	return out
 }
 
